@@ -63,13 +63,14 @@ def _read(p):
         return f.read()
 
 
-def build_unit(unit, workcopy):
+def build_unit(unit, workcopy, dropped=()):
     """Return (text, rewrite_log, fn_obligation_map, items_under_contract)."""
     out = [HEADER]
     log = []
     sources = {}
     fn_ob = {}
     under_contract = []
+    helpers = []
     for frag in unit.get("prelude", []):
         out.append("// ---- prelude fragment: %s ----\n" % frag)
         out.append(_read(os.path.join(PRELUDE, frag)))
@@ -144,6 +145,23 @@ def build_unit(unit, workcopy):
                 m2.setdefault("file", item["file"])
                 m2.setdefault("vis", "")
                 out.append(emit_fn(src, m2, base_path=item["path"]) + "\n")
+            # functions of the impl that the unit does not know (added by a later change): emitted
+            # verbatim so that callers still compile; a `&mut self` helper gets the unit's CANDIDATE
+            # postcondition (Houdini style): kept if the helper itself verifies it, dropped otherwise
+            if item.get("helper_candidate") is not None:
+                known = {m["path"].split("fn ")[-1].strip() for m in item["members"]}
+                for (s0, e0) in vx._top_level_items(src, b + 1, src.pairs[b]):
+                    kw0, word0 = vx._item_keyword(src, s0, e0)
+                    if word0 != "fn":
+                        continue
+                    fname = toks[kw0 + 1].text
+                    if fname in known:
+                        continue
+                    sig = src.text[toks[kw0].pos:toks[e0 - 1].end].split("{")[0]
+                    cand = item["helper_candidate"] if ("&mut self" in sig and fname not in dropped) else ""
+                    helpers.append(fname)
+                    log.append("HELPER %s: uncontracted fn `%s` of `%s` emitted verbatim%s" % (item["path"], fname, item["path"], " with candidate postcondition" if cand else ""))
+                    out.append(emit_fn(src, dict(path="fn " + fname, file=item["file"], vis="", contract=cand, body_subst_optional=item.get("helper_body_subst", [])), base_path=item["path"]) + "\n")
             out.append("}\n\n")
         else:
             loc = vx.locate(src, item["path"])
@@ -154,6 +172,7 @@ def build_unit(unit, workcopy):
     canary = CANARY.replace("CANARY_USE", unit.get("canary_use", ""))
     out.append(canary)
     out.append(FOOTER)
+    build_unit.helpers = helpers
     return "".join(out), log, fn_ob, under_contract
 
 
@@ -185,7 +204,7 @@ def parse_stderr(stderr):
     return blocks
 
 
-def run_unit(name, workcopy, outdir, timeout=600, rlimit=None):
+def _run_unit_once(name, workcopy, outdir, timeout=600, rlimit=None, dropped=()):
     """Run one unit. Returns dict(status=pass|fail|undecided, ...)."""
     t0 = time.time()
     res = dict(unit=name, status="undecided", failed=[], reason="", obligations=0, discharged=0,
@@ -195,7 +214,8 @@ def run_unit(name, workcopy, outdir, timeout=600, rlimit=None):
         unit = load_unit(name)
         res["assumptions"] = list(unit.get("assumptions", []))
         res["property_obligations"] = unit.get("obligations", {})
-        text, log, fn_ob, under = build_unit(unit, workcopy)
+        text, log, fn_ob, under = build_unit(unit, workcopy, dropped)
+        res["helpers"] = list(getattr(build_unit, "helpers", []))
     except Undecided as e:
         res["reason"] = str(e)
         res["wall_s"] = time.time() - t0
@@ -310,6 +330,20 @@ def run_unit(name, workcopy, outdir, timeout=600, rlimit=None):
         return res
     res["status"] = "pass"
     return res
+
+
+def run_unit(name, workcopy, outdir, timeout=600, rlimit=None):
+    """Run a unit; if an uncontracted helper (a function the unit does not know) fails its CANDIDATE
+    postcondition, drop that candidate and run once more (Houdini): a helper that does establish the
+    candidate keeps callers provable, one that does not makes the caller's obligation fail."""
+    r = _run_unit_once(name, workcopy, outdir, timeout, rlimit)
+    helpers = set(r.get("helpers", []))
+    bad = {f["function"] for f in r.get("failed", []) if f["function"] in helpers}
+    if r["status"] == "fail" and bad:
+        r2 = _run_unit_once(name, workcopy, outdir, timeout, rlimit, dropped=tuple(bad))
+        r2["rewrite_log"] = r2.get("rewrite_log", []) + ["HELPER candidates dropped for: %s" % ", ".join(sorted(bad))]
+        return r2
+    return r
 
 
 if __name__ == "__main__":
